@@ -74,7 +74,6 @@ func (s SandboxContext) Init(init *interop.Init, timeoutMs int64) interop.InitCo
 // ongoing invoke handlers to return before proceeding with invoke
 // TODO: move this method to the initialization context, since reset is conceptually on RT domain
 func (s SandboxContext) Reset(reset *interop.Reset) (interop.ResetSuccess, *interop.ResetFailure) {
-	defer s.rapidCtx.Clear()
 	return s.rapidCtx.HandleReset(reset)
 }
 
